@@ -8,14 +8,18 @@ EXTENDS Integers, Sequences, FiniteSets, TLC, Json
 
 (***************************************************************************)
 (* Values.  Context: Dict [k |-> "D", m |-> function from keys] or Leaf    *)
-(* [k |-> "L", t |-> "int" | "str", n |-> integer value (0 for strings),   *)
-(* v |-> str(value)].  Data: [t |-> "int" | "bool" | "str", n |-> value    *)
-(* (length for strings)].  Flow value: [d, c, h] (h: a (data, context)     *)
+(* [k |-> "L", t |-> "int" | "str" | "none" | "bool" | "list" (empty), n |-> *)
+(* integer value (0 otherwise), v |-> str(value)].  Data: [t |-> "int" |   *)
+(* "bool" | "str" | "none" | "tuple", n |-> value (length for str/tuple)].  Flow value: [d, c, h] (h: a (data, context)     *)
 (* pair; otherwise the context is empty).                                  *)
 (***************************************************************************)
 Dict(m) == [k |-> "D", m |-> m]
 LInt(n, v) == [k |-> "L", t |-> "int", n |-> n, v |-> v]
 LStr(v) == [k |-> "L", t |-> "str", n |-> 0, v |-> v]
+\* the values an implementation might confuse with "absent": None, False, [] (and 0, "", {} above)
+LNone == [k |-> "L", t |-> "none", n |-> 0, v |-> "None"]
+LFalse == [k |-> "L", t |-> "bool", n |-> 0, v |-> "False"]
+LList == [k |-> "L", t |-> "list", n |-> 0, v |-> "[]"]
 Empty == Dict(<<>>)
 Absent == [k |-> "A"]
 Val(t, n, c, h) == [d |-> [t |-> t, n |-> n], c |-> c, h |-> h]
@@ -66,9 +70,11 @@ FnEval(f, v) ==
   CASE f = "yes" -> "T"
     [] f = "no" -> "F"
     [] f = "boom" -> "E"                                                   \* always raises
-    [] f = "pos" -> IF v.d.t = "str" THEN "E" ELSE B(v.d.n > 0)            \* data > 0
-    [] f = "len" -> IF v.d.t = "str" THEN B(v.d.n > 0) ELSE "E"            \* len(data), not a bool
+    [] f = "pos" -> IF v.d.t \in {"int", "bool"} THEN B(v.d.n > 0) ELSE "E"   \* data > 0 (TypeError for str, None, ())
+    [] f = "len" -> IF v.d.t \in {"str", "tuple"} THEN B(v.d.n > 0) ELSE "E" \* len(data), not a bool
     [] f = "hasctx" -> B(v.c # Empty)                                      \* bool(get_context(v))
+    [] f = "isnone" -> B(v.d.t = "none")                                   \* data is None
+    [] f = "eq0" -> B(v.d.t \in {"int", "bool"} /\ v.d.n = 0)               \* data == 0
 
 LeafEval(x, v) ==
   CASE x.k = "str" -> Contains(v.c, x.p)
@@ -83,12 +89,20 @@ GetRec(cur, p, i) ==
   ELSE IF p[i] \notin DOMAIN cur.m THEN Absent
   ELSE GetRec(cur.m[p[i]], p, i + 1)
 \* predicates on a sub-context (lenaverif/sellib.py PREDS)
+Num(s) == s.k = "L" /\ s.t \in {"int", "bool"}
 PredEval(q, s) ==
   CASE q = "isdict" -> B(s.k = "D")
-    [] q = "eq1" -> B(s.k = "L" /\ s.t = "int" /\ s.n = 1)                 \* sub == 1
-    [] q = "gt0" -> IF s.k = "L" /\ s.t = "int" THEN B(s.n > 0) ELSE "E"   \* sub > 0
+    [] q = "isnone" -> B(s.k = "L" /\ s.t = "none")                        \* sub is None
+    [] q = "eq0" -> B(Num(s) /\ s.n = 0)                                   \* sub == 0 (False == 0)
+    [] q = "eq1" -> B(Num(s) /\ s.n = 1)                                   \* sub == 1
+    [] q = "gt0" -> IF Num(s) THEN B(s.n > 0) ELSE "E"                     \* sub > 0 (TypeError otherwise)
     [] q = "hasx" -> IF s.k = "D" THEN B("x" \in DOMAIN s.m)               \* "x" in sub
-                     ELSE IF s.t = "str" THEN B(s.v = "x") ELSE "E"
+                     ELSE IF s.t = "str" THEN B(s.v = "x")
+                     ELSE IF s.t = "list" THEN "F" ELSE "E"
+    [] q = "truthy" -> IF s.k = "D" THEN B(s.m # <<>>)                     \* bool(sub)
+                       ELSE IF Num(s) THEN B(s.n # 0)
+                       ELSE IF s.t = "str" THEN B(s.v # "") ELSE "F"
+    [] q = "always" -> "T"
     [] q = "boom" -> "E"
 
 (***************************************************************************)
